@@ -249,7 +249,10 @@ Step(e, s, rw, sl, ak, ls) ==
          Res(   Cl(s.conn = "limbo" \/ e.flag = (e.ok \/ s.conn = "open"), "C18:connected-after-connect")      \* a refused retry on a connected client changes nothing
              \o Cl(e.ok \/ s.conn \in {"open", "limbo"} \/ ~e.flag, "C18:refused-connect-leaves-disconnected")
              \* a connect that succeeds on a client that is not connected has opened a connection to the device
-             \o Cl(~e.ok \/ s.conn = "open" \/ ~("newconn" \in DOMAIN e) \/ e.newconn, "C18:connect-opened-no-connection"),
+             \o Cl(~e.ok \/ s.conn = "open" \/ ~("newconn" \in DOMAIN e) \/ e.newconn, "C18:connect-opened-no-connection")
+             \* ... and a client that is not connected can always connect to a device that listens on its control port
+             \* (MC_ClientLife!ReconnectPossible): whatever was refused or reset before leaves nothing behind that prevents it
+             \o Cl(~("listening" \in DOMAIN e) \/ ~e.listening \/ e.ok \/ s.conn = "open", "C18:connect-failed-although-the-device-listens"),
              IF e.ok THEN "connect" ELSE IF s.conn = "open" THEN "connect-refused-while-connected" ELSE "connect-refused",
              [s EXCEPT !.conn = IF e.ok THEN "open" ELSE IF @ = "open" THEN "open" ELSE @], rw, sl)
     [] e.ev = "Disc" ->
